@@ -440,6 +440,11 @@ func loadChunk(l *Lexer, recordLen uint64) error {
 
 		_, err := io.ReadFull(l.reader, l.uncompressedChunk[:uncompressedSize])
 		if err != nil {
+			// a decoder that runs dry before producing the declared number of bytes has not reached the
+			// end of the file; do not let that look like a clean io.EOF to callers
+			if errors.Is(err, io.EOF) {
+				err = io.ErrUnexpectedEOF
+			}
 			return fmt.Errorf("failed to decompress chunk: %w", err)
 		}
 
